@@ -91,6 +91,13 @@ func (m DistributedExecutionOptimizer) Optimize(plan parser.Expr) parser.Expr {
 		if isDistributive(parent) {
 			return false
 		}
+		// A function that is not distributive cannot take the coalesced remote
+		// results as its argument either: the coordinator evaluates it as it is.
+		if parent != nil {
+			if _, ok := (*parent).(*parser.Call); ok {
+				return true
+			}
+		}
 
 		*current = m.makeSubQueries(current, engines)
 		return true
@@ -127,7 +134,44 @@ func isDistributive(expr *parser.Expr) bool {
 		if _, ok := distributiveAggregations[aggr.Op]; !ok {
 			return false
 		}
+		// A parameter computed from series (topk(scalar(x), y)) would be computed
+		// by each engine from its own series only.
+		if aggr.Param != nil && selectsSeries(aggr.Param) {
+			return false
+		}
+	case *parser.Call:
+		// A function can be evaluated by each engine on its own only if it maps every
+		// series of its argument separately. scalar, absent and histogram_quantile look
+		// at several series at once, and a function without a vector argument (time,
+		// vector, pi) would be returned once by every engine.
+		if _, ok := nonDistributiveFunctions[aggr.Func.Name]; ok {
+			return false
+		}
+		for _, arg := range aggr.Args {
+			if t := arg.Type(); t == parser.ValueTypeVector || t == parser.ValueTypeMatrix {
+				return true
+			}
+		}
+		return false
 	}
 
 	return true
+}
+
+func selectsSeries(expr parser.Expr) bool {
+	selects := false
+	parser.Inspect(expr, func(node parser.Node, _ []parser.Node) error {
+		if _, ok := node.(*parser.VectorSelector); ok {
+			selects = true
+		}
+		return nil
+	})
+	return selects
+}
+
+var nonDistributiveFunctions = map[string]struct{}{
+	"scalar":             {},
+	"absent":             {},
+	"absent_over_time":   {},
+	"histogram_quantile": {},
 }
